@@ -464,6 +464,7 @@ def check(model, rep):
     r057(model, rep, ck)
     r0510(model, rep, ck)
     r0511(model, rep, ck)
+    r0512(model, rep, ck)
     from . import frames
     rep.rule('R05.9', 'kinematics methods of Arm: every relative transform inv(A) @ B / globalToLocal(A, B) is taken between poses expressed in the same frame (world vs base)')
     kin = [fi for name, fi in sorted(ck.arm.methods.items()) if not ('ynamics' in name or name in ('massMatrix', 'coriolisGravity'))]
@@ -545,6 +546,71 @@ def r0511(model, rep, ck):
                'no in-place change of a shareable pose field (%s)' % ', '.join(sorted(shared)), True)
     rep.count('R05.11 shareable pose fields', len(shared))
 
+
+
+def r0512(model, rep, ck):
+    """No function the arm hands (a view of) its stored joint vector to writes into that argument.  `fsr.angleMod(x)` hands x back when
+    nothing is wrapped and `reshape` is a view, so `theta_init = fsr.angleMod(self._theta.reshape(n))` IS the arm's state; a solver
+    that iterates in its argument moves the joints while the reported tool pose stays."""
+    rep.rule('R05.12', 'no kernel / helper that an Arm method hands a view of the stored joint vector to writes its storage '
+                       '(the joints would change without the tool pose being re-derived)')
+    from ..engine.effects import Effects
+    fx = Effects(model)
+    COPIES = ('copy', 'array', 'zeros', 'zeros_like', 'ones', 'deepcopy', 'tolist', 'astype')
+    n = 0
+
+    def is_view(e, views):
+        """may `e` evaluate to (a view of) the stored joint vector?"""
+        if isinstance(e, ast.Attribute) and self_field(e) == '_theta':
+            return True
+        if isinstance(e, ast.Name):
+            return e.id in views
+        if isinstance(e, ast.Subscript):
+            return is_view(e.value, views) and isinstance(e.slice, (ast.Slice, ast.Tuple))
+        if isinstance(e, ast.Call):
+            f_ = e.func
+            tail = f_.attr if isinstance(f_, ast.Attribute) else (f_.id if isinstance(f_, ast.Name) else '')
+            if tail in COPIES:
+                return False
+            if isinstance(f_, ast.Attribute) and tail in ('reshape', 'flatten', 'ravel', 'squeeze', 'view', 'T'):
+                return tail != 'flatten' and is_view(f_.value, views)
+            if tail in ('angleMod', 'asarray', 'ascontiguousarray', 'reshape', 'squeeze', 'ravel', 'atleast_1d'):
+                return any(is_view(a_, views) for a_ in e.args)
+        return False
+
+    for name, fi in sorted(ck.arm.methods.items()):
+        views = set()
+        for _ in range(2):
+            for st in walk_own(fi.node):
+                if isinstance(st, ast.Assign) and len(st.targets) == 1 and isinstance(st.targets[0], ast.Name) and is_view(st.value, views):
+                    views.add(st.targets[0].id)
+        for c in walk_own(fi.node):
+            if not isinstance(c, ast.Call):
+                continue
+            hot = [(k, a_) for k, a_ in enumerate(c.args) if is_view(a_, views)]
+            if not hot:
+                continue
+            r = model.resolve_call(fi, c)
+            if not r or r[0] != 'func' or r[1].cls is not None:
+                continue
+            callee = r[1]
+            if callee.name == 'angleMod':
+                # the one accepted writer: it wraps entries beyond one turn, and the stored vector is already wrapped (FK stores
+                # angleMod(theta)), so on the arm's own state it is the identity; what it hands back is the view itself (is_view above)
+                continue
+            summ = fx.summary(callee)
+            for k, a_ in hot:
+                if k >= len(callee.params):
+                    continue
+                pname = callee.params[k]
+                n += 1
+                sites = [(n_, how) for (p_, k_), lst in summ.writes.items() if p_ == pname and k_ != 'meta' for (n_, how) in lst]
+                rep.ob('R05.12', fi, '%s(... %s ...) leaves the stored joints unwritten' % (callee.name, src(a_)[:40]), not sites,
+                       ('%s writes its parameter `%s` (%s, line %d) and %s passes it %s, a view of the arm\'s stored joint vector: the joints '
+                        'change while the reported tool pose, the joint frames and default-argument queries still describe the old configuration'
+                        % (callee.name, pname, sites[0][1], sites[0][0].lineno, name, src(a_)[:60])) if sites else 'not written', line=c.lineno)
+    rep.count('R05.12 calls receiving a view of the stored joints', n)
+    rep.floor('R05.12', 'calls receiving a view of the stored joints', n, 1)
 
 def r0510(model, rep, ck):
     """Refresh helpers assign what they refresh on every path (a helper that only SETS a derived field when a condition holds
